@@ -62,26 +62,37 @@ package bcl
 //@   modifies p.constants
 
 // ---------------------------------------------------------------------------
-// lexer interface as seen by the parser. The token channel protocol is
-// assumed here (trusted) and is the lexer side's obligation (C11):
-// the channel is closed only after a finalizer token, token types are in
-// range, and an error token carries an error.
+// lexer interface as seen by the parser. The token channel protocol is a set
+// of promises on the channel: each is proved at every send (emit, emitError)
+// and at the close (run) on the lexer side, and assumed after a receive in
+// nextToken (FIFO channel, one sender, one receiver - the lexer-window
+// discipline checks that nobody else touches the channel). $msg is the token,
+// $prev the previous token on the channel, $n the number of tokens before it.
 //
-//@ group C06,C17
+//@ group C06,C17,C11
+//@ invariant [C11,C06] token_link (p *parser): g.consumed == g.ev_recv_tokens && g.consumed >= 0 && (g.consumed == 0 ==> !g.lastfin && !g.lasterr) && (g.consumed > 0 ==> g.lastfin == (g.ev_val_tokens.typ <= tEOF) && g.lasterr == (g.ev_val_tokens.typ == tERR))
+//
 //@ func (*lexer).nextToken
-//@   trusted
-//@   noinv lexwin
+//@   noinv lexwin, token_log, window_is_a_piece_of_the_source
+//@   requires token_link: g.consumed == g.ev_recv_tokens && g.consumed >= 0 && (g.consumed == 0 ==> !g.lastfin && !g.lasterr) && (g.consumed > 0 ==> g.lastfin == (g.ev_val_tokens.typ <= tEOF) && g.lasterr == (g.ev_val_tokens.typ == tERR))
 //@   ensures in_range: result1 ==> 0 <= result0.typ && result0.typ < tMAX
 //@   ensures err_set: result1 && result0.typ == tERR ==> result0.err != nil
 //@   ensures closed_after_fin: !result1 ==> old(g.lastfin)
 //@   ensures fail_follows_err: result1 && old(g.lasterr) ==> result0.typ == tFAIL
-//@   modifies nothing
+//@   ensures nothing_after_a_finalizer: result1 ==> !old(g.lastfin)
+//@   ensures [C08] positions_are_offsets: result1 ==> result0.pos >= 0
+//@   ensures token_link: g.consumed == g.ev_recv_tokens && g.consumed >= 0 && (g.consumed == 0 ==> !g.lastfin && !g.lasterr) && (g.consumed > 0 ==> g.lastfin == (g.ev_val_tokens.typ <= tEOF) && g.lasterr == (g.ev_val_tokens.typ == tERR))
+//@   modifies g.ev_recv_tokens, g.ev_val_tokens
 //@   ghost lastfin = result1 ? result0.typ <= tEOF : g.lastfin; consumed = result1 ? g.consumed + 1 : g.consumed; lasterr = result1 ? result0.typ == tERR : g.lasterr
 //
 //@ func newLexer
-//@   noinv lexwin
+//@   noinv lexwin, token_log, window_is_a_piece_of_the_source
 //@   requires [C11,C06] line_table_updater_given: linePosUpdater != nil
-//@   requires [C11] fresh_token_protocol: !g.lx_fin && !g.lx_err && g.ev_close_tokens == 0 && g.ev_bytes_inputs == 0
+//@   requires [C11] fresh_token_protocol: !g.lx_fin && !g.lx_err && g.ev_close_tokens == 0 && g.ev_bytes_inputs == 0 && g.ev_send_tokens == 0
+//@   promise [C11,C06] token_well_formed: at tokens: 0 <= $msg.typ && $msg.typ < tMAX && ($msg.typ == tERR ==> $msg.err != nil) && $msg.pos >= 0
+//@   promise [C11,C06] fail_follows_error: at tokens: $n > 0 && $prev.typ == tERR ==> $msg.typ == tFAIL
+//@   promise [C11,C06] nothing_after_a_finalizer: at tokens: $n > 0 ==> $prev.typ > tEOF
+//@   promise [C11,C06] closed_only_after_a_finalizer: at close tokens: $n > 0 && $prev.typ <= tEOF
 //@   ensures result != nil
 //@   modifies g.ev_go
 
@@ -407,7 +418,7 @@ package bcl
 //@   ensures monotone: g.consumed >= old(g.consumed)
 //
 //@ func parse
-//@   ghostinit sd = 0; pend = F0(); bd = 0; uninit = 0; njopen = 0; maxtarget = 0; consumed = 0; lastfin = false; lasterr = false; diags = 0; lx_fin = false; lx_err = false; ev_close_tokens = 0; ev_bytes_inputs = 0; ev_send_tokens = 0; bk = 2
+//@   ghostinit sd = 0; pend = F0(); bd = 0; uninit = 0; njopen = 0; maxtarget = 0; consumed = 0; lastfin = false; lasterr = false; diags = 0; lx_fin = false; lx_err = false; ev_close_tokens = 0; ev_bytes_inputs = 0; ev_send_tokens = 0; ev_recv_tokens = 0; bk = 2
 //@   ensures [C17] error_iff_diagnostic: ((result2 != nil) <==> g.diags > 0) && g.diags >= 0
 //@   ensures result0 != nil
 //@   ensures [C19,C03,C09,C06] complete_when_ok: result2 == nil ==> dumpable(result0)
